@@ -674,11 +674,12 @@ class MeshRegion:
                 ]
             )
         else:
-            # inside separatrix
+            # inside separatrix: count the points of the radial segments from this one up
+            # to the separatrix, so that the separatrix has global index 0 from both sides
             return i - sum(
                 2 * n
                 for n in self.equilibriumRegion.nx[
-                    self.equilibriumRegion.separatrix_radial_index : self.radialIndex : -1  # noqa: E501
+                    self.radialIndex : self.equilibriumRegion.separatrix_radial_index
                 ]
             )
 
